@@ -7,7 +7,7 @@ INPUTS = [('key', key(0)), ('mbutton', mbutton(0)), ('motion', motion()), ('whee
 CONDS = [('none', []), ('press', ['(c_press 1/2)']), ('hold', ['(c_hold 1/8 false 1/2 false)'])]
 EDGE = ['(c_just_press 1/2)', '(c_release 1/2)', '(c_tap 1/4 1/2 false)']
 
-def build(rng, L, hows):
+def build(rng, L, hows, shared=False):
     ids = Ids()
     acts = []
     k = 0
@@ -22,10 +22,22 @@ def build(rng, L, hows):
     # nothing may happen to it (what the reader remembers about consumed modifiers must not leak into the next frame).
     # It is the only binding that needs a modifier and nobody else binds key 1, so consumption hides nothing here.
     acts.append(action(ids, aid(3, 3, True, False), [bind(ids, key(1, CONTROL), [PROBE], [])]))
-    cfg = {(0, 0): spec(acts)}
-    steps = [sop(spawn(0, [0])), frame(raw())]
+    # exclusive on one entity, or shared by three holders two of which may leave while inputs are held: the others must
+    # not notice (no Started in a frame without input change)
+    if shared:
+        sp = spec(acts); holders = [0, 1, 2]
+        cfg = {(1, e): sp for e in holders}; menu = [1]
+        steps = [sop(spawn(e, [1])) for e in holders] + [frame(raw())]
+        leave = {rng.randrange(2, L): rng.choice([remove(e, 1), despawn(e)]) for e in holders[1:] if rng.random() < .8}
+    else:
+        cfg = {(0, 0): spec(acts)}; menu = [0]; holders = [0]; leave = {}
+        steps = [sop(spawn(0, [0])), frame(raw())]
     cur = set()
+    paused = False
     for i in range(L):
+        if i in leave: steps.append(sop(leave[i]))
+        # the virtual clock may be paused: input is reflected all the same
+        if rng.random() < 0.15: paused = not paused
         if rng.random() < 0.5:
             for n in [n for n, _ in INPUTS] + ['chordkey', 'ctrl']:
                 if rng.random() < .5: cur ^= {n}
@@ -35,28 +47,28 @@ def build(rng, L, hows):
         # sub-frame taps (pressed and released by window events before the frame) on inputs that are not held: they never
         # show in ButtonInput::pressed and must not be reflected at all
         taps = rng.randrange(32) if rng.random() < 0.4 else 0
-        steps.append(frame(rw, rand_dt(rng, maxe=7), how=hows[i % len(hows)] + 4 * taps))
-    return scenario([0], [0], cfg, steps)
+        steps.append(frame(rw, rand_dt(rng, maxe=7), F(1), paused, how=hows[i % len(hows)] + 4 * taps))
+    return scenario(menu, holders, cfg, steps)
 
 def cases(tier, rng):
     for hows in ([0], [1], [2], [0, 1, 2], [1, 2], [2, 0]):
         for _ in range(6 if tier == 'thorough' else 2):
             yield (build(rng, 14, hows), 'injection-%s' % ''.join(map(str, hows)))
     for _ in range(1500 if tier == 'thorough' else 150):
-        yield (build(rng, rng.randint(6, 20), [rng.randrange(3) for _ in range(5)]), 'random')
+        yield (build(rng, rng.randint(6, 20), [rng.randrange(3) for _ in range(5)], rng.random() < .35), 'random')
 
 def nontrivial(case, out):
     return 'EStarted' in out
 
 STAGES = [dict(name='schedule', mode='app', coq='Check.C09c', cases=cases, nontrivial=nontrivial, shard=20,
                exhaustive={'thorough': False, 'quick': False},
-               rule='one context with 16 actions: {key, mouse button, mouse motion, wheel} x {no condition, Press, Hold} and a key with action-level JustPress / Release / Tap, plus a consuming action on a Ctrl+key chord held over several frames; sub-frame taps (press + release events within one frame) on inputs that are not held; raw input injected as window events before the frame, by resource mutation '
+               rule='one context (exclusive, or shared by three holders some of which leave in mid-run) with 16 actions: {key, mouse button, mouse motion, wheel} x {no condition, Press, Hold} and a key with action-level JustPress / Release / Tap, plus a consuming action on a Ctrl+key chord held over several frames; sub-frame taps (press + release events within one frame) on inputs that are not held; raw input injected as window events before the frame, by resource mutation '
                     'between frames, or from a system in First (fixed and mixed modes); harness systems: a marker before the crate\'s set, a marker + snapshot probe ordered after the set in PreUpdate, a snapshot '
-                    'probe in Update; sticky random scripts of 6-20 frames. non-trivial = an episode starts; distinct = distinct scenario text')]
+                    'probe in Update; sticky random scripts of 6-20 frames, the virtual clock paused now and then. non-trivial = an episode starts; distinct = distinct scenario text')]
 CLAUSES = {1: 'data polled by a PreUpdate system ordered after the crate\'s set differs from the data polled in Update', 2: 'data polled in Update differs from the data at the end of the frame',
            3: 'action events were delivered before the crate\'s set ran in this frame (late delivery from the previous frame)', 4: 'action events of the frame were delivered after the probe ordered after the crate\'s set',
-           5: 'a frame that did not change an action\'s state delivered Started, Canceled or Completed', 6: 'a binding did not read this frame\'s raw input (one-frame lag)',
-           7: 'the state of a level-triggered action is not the function of this frame\'s raw input', 8: 'equal raw input in two consecutive frames gave different states for a level-triggered action', 10: 'an action-level JustPress did not fire exactly on the frame its input became active (a frame was not reflected)',
+           5: 'a frame that did not change an action\'s state delivered Started, Canceled or Completed', 6: 'a binding did not read this frame\'s raw input (one-frame lag, or not evaluated at all in this frame)',
+           7: 'the state of a level-triggered action is not the function of this frame\'s raw input', 8: 'equal raw input in two consecutive frames gave different states for a level-triggered action', 30: 'an operation between two frames (a holder of the shared context leaving) changed the polled data of the remaining holders\' instance', 10: 'an action-level JustPress did not fire exactly on the frame its input became active (a frame was not reflected)',
            18: 'panic', 19: 'malformed trace', 20: 'panic'}
 def describe(stage, clause): return CLAUSES.get(clause, 'clause %d' % clause)
 def matches_known(k, case, verdict): return False
